@@ -81,7 +81,14 @@ where
         // 1/x - 1 on both sides (the masked targets of C14 have a backend gradient of 0 outside their support
         // and are not usable for a trajectory oracle)
         target = GTarget::new(GKind::HalfLineLog, g.usize(1, 3));
+    } else if special == "boxinf" {
+        // standard normal restricted to a box, log-density -inf outside: every chain STARTS outside, so that
+        // H(x) = +inf; a proposal that is outside too gives H - H' = inf - inf (NaN): `ln u <= NaN` is false,
+        // the row stays. Only the decision is judged here (the backend's gradient outside the mask is 0, the
+        // analytic one is not: no trajectory oracle).
+        target = GTarget::new(GKind::Box, g.usize(1, 3));
     }
+    let decision_only = special == "boxinf";
     let d = target.d;
     let nc = pus(params, "n_chains");
     let l = pus(params, "L");
@@ -98,6 +105,11 @@ where
             *row = if c % 2 == 0 { inside } else { inside.iter().map(|v| -v.abs() - 0.25).collect() };
         }
         o.count("probe_chains_started_outside_the_support", (nc / 2) as u64);
+    } else if decision_only {
+        for row in init64.iter_mut() {
+            *row = (0..d).map(|_| (target.c + 1.0 + g.normal().abs()) * if g.bool(1, 2) { -1.0 } else { 1.0 }).collect();
+        }
+        o.count("probe_chains_started_at_minus_inf_density", nc as u64);
     }
     let init: Vec<Vec<T>> = init64.iter().map(|r| r.iter().map(|x| T::from(*x).unwrap()).collect()).collect();
     let eps_t = T::from(eps).unwrap();
@@ -211,7 +223,9 @@ where
             let big = if eps_b > 1e-10 { 1e17 } else { 1e150 };
             let ref_finite = rx.iter().chain(rp.iter()).all(|v| v.is_finite() && v.abs() < big) && target.logp(&rx).is_finite() && target.logp(&rx).abs() < big;
             let lp1_ref = target.logp(&rx);
-            if (l >= 1 && target.grad(x).iter().any(|v| v.is_nan())) || lp0[c].is_nan() {
+            if decision_only {
+                o.count("probe_row_judged_by_decision_only", 1);
+            } else if (l >= 1 && target.grad(x).iter().any(|v| v.is_nan())) || lp0[c].is_nan() {
                 // no trajectory starts here (undefined force) or H(x) is undefined: the row must stay
                 o.count("probe_row_without_defined_trajectory_or_energy", 1);
                 if moved_flag {
@@ -268,7 +282,7 @@ where
             }
             // energy of the reference: H' consistent with the traced one (catches a wrong kinetic term only
             // through the decision above; here the potential term)
-            if ref_finite && tol < 0.05 * scale && !chaotic {
+            if !decision_only && ref_finite && tol < 0.05 * scale && !chaotic {
                 let dlp = (lp1[c] - lp1_ref).abs();
                 let lp_tol = 64.0 * (target.logp(&perturb(&rx, 4.0 * eps_b, 29)) - lp1_ref).abs() + 64.0 * maxabs(&target.grad(&rx)) * tol + 512.0 * eps_b * (lp1_ref.abs() + 1.0);
                 if dlp > lp_tol {
@@ -423,7 +437,7 @@ impl Scenario for HmcSteps {
             1 | 2 => g.log_uniform(1e-4, 1e-2),
             _ => g.log_uniform(1e-2, 0.5),
         };
-        json!({"float": *g.pick(&["f64", "f64", "f32"]), "gseed": g.u64(), "hseed": g.u64(), "n_chains": g.usize(1, 32).min(if l > 24 { 4 } else { 32 }), "L": l, "eps": fbits(eps), "steps": g.usize(1, 10), "start_scale": fbits(g.log_uniform(0.1, 3.0)), "retune": g.bool(1, 3), "special": *g.pick(&["", "", "", "", "", "", "kink", "support"])})
+        json!({"float": *g.pick(&["f64", "f64", "f32"]), "gseed": g.u64(), "hseed": g.u64(), "n_chains": g.usize(1, 32).min(if l > 24 { 4 } else { 32 }), "L": l, "eps": fbits(eps), "steps": g.usize(1, 10), "start_scale": fbits(g.log_uniform(0.1, 3.0)), "retune": g.bool(1, 3), "special": *g.pick(&["", "", "", "", "", "", "kink", "support", "boxinf"])})
     }
     fn execute(&self, p: &Value, ws: bool) -> Outcome {
         if ps(p, "float") == "f32" {
